@@ -1,4 +1,4 @@
-SPECIFICATION SGSpec
+SPECIFICATION SSpec
 CONSTANTS
   PfxNs <- T_PfxNs
   CanonPfx <- T_CanonPfx
@@ -15,7 +15,7 @@ CONSTANTS
   BodyUses <- T_BodyUses
   BodyPre <- T_BodyPre
   WinName <- T_WinName
-  Dev <- DevAsIs
+  Dev <- DevIdeal
   MaxOv = 0
   Bases <- BasesQ
   PoolJ <- PoolJ_Q
@@ -25,6 +25,6 @@ CONSTANTS
   Part = 0
   TitleU <- TitlesAll
   MaxPages = 2
-  Wins <- WinBoth
-INVARIANT SGenInv
+  Wins <- WinNo
+INVARIANT P4_Injective
 CHECK_DEADLOCK FALSE
